@@ -382,6 +382,10 @@ package router
 //@   oncall forward: nFwd = nFwd + 1
 //@   ensures [C19:hit-answered-from-cache] gHit != nil && !gDone ==> rc.Response.Msg == gHit && rc.Response.Cached && nFwd == 0
 //@   callsite asyncSingleFlightPrefetch: [C19:refresh-only-inside-the-window] gHit != nil && gNeed && arg1 == q
+//@   callsite asyncSingleFlightPrefetch: [C19,C07:refresh-for-the-group-of-this-client] arg2 == rc.RemoteAddr.ip
+//@   callsite forward: [C12,C07:forwarded-on-behalf-of-this-client] arg4 == rc.RemoteAddr.ip
+//@   callsite Store?: [C07:stored-for-the-group-of-this-client] arg2 == rc.RemoteAddr.ip && arg1 == q
+//@   callsite limiterAllowN: [C15:cost-charged-to-the-client] arg1 == rc.RemoteAddr.ip
 //@   callsite needPrefetch: [C19:window-of-the-entry-hit] gHit != nil && arg0 == gStored && arg1 == gExp
 //@   callsite forward: [C10:selected-upstream] firstApplies(r, q.Name, rc.Response.RuleIdx) && r.rules[rc.Response.RuleIdx].reject == 0 && arg2 == r.rules[rc.Response.RuleIdx].upstream && arg3 == q
 //@   callsite asyncSingleFlightPrefetch: [C10:selected-upstream-prefetch] firstApplies(r, q.Name, rc.Response.RuleIdx) && r.rules[rc.Response.RuleIdx].reject == 0 && arg3 == r.rules[rc.Response.RuleIdx].upstream
@@ -859,7 +863,10 @@ package router
 //@   ensures (err == nil) == (hs != nil)
 //@   ensures [C03:response-not-cut-before-the-request-deadline] err == nil ==> hs.WriteTimeout == 0 || int(hs.WriteTimeout) > 6 * sec()
 //@   ensures [C01:bounded-request-headers] err == nil ==> hs.MaxHeaderBytes == 4096 && int(hs.ReadTimeout) > 0
-//@   callsite makeTlsConfig?: [C17:listener-requires-certificate] arg1 == true
+//@   callsite makeTlsConfig?: [C17:listener-requires-certificate] arg1 == true && arg0 == &cfg.Tls
+//@   ghost gTls *tls.Config = nil
+//@   aftercall makeTlsConfig?: gTls = ret0
+//@   ensures [C17:handshake-with-the-verified-configuration] err == nil && useTls ==> gTls != nil && hs.TLSConfig == gTls
 
 //@ func (c *cacheCtl) Close() (err error)
 //@   trusted
@@ -1104,13 +1111,20 @@ package router
 //@   oncall go: nAns = nAns + 1
 //@   modifies *
 //@   ensures [C13:every-query-read-is-answered-once] nAns == nQ
-//@   callsite limiterAllowN: [C15:query-cost-charged-to-the-client] arg0 == s.r && arg2 == 2
+//@   ghost gQR net.Addr = nil
+//@   ghost gQAP netip.AddrPort = nil
+//@   ghost nQConv int = 0
+//@   aftercall RemoteAddr?: gQR = ret0
+//@   aftercall netAddr2NetipAddr: gQAP = (arg0 == gQR ? ret0 : gQAP)
+//@   oncall netAddr2NetipAddr: nQConv = nQConv + 1
+//@   callsite limiterAllowN: [C15:query-cost-charged-to-the-client] arg0 == s.r && arg2 == 2 && nQConv >= 1 && arg1 == gQAP.ip
+//@   callsite netAddr2NetipAddr: [C15:address-of-this-connection] true
 //@   callsite mustHaveRespB: [C13,C15:refused-answer] arg0 == gM && arg1 == nil && arg2 == dnsmsg.RCodeRefused && arg3 == true
 //@   callsite Write: [C13:over-limit-or-refused-by-the-limiter] arg1 == gB && len(arg1) >= 14 && BE16(arg1, 0) == uint16(len(arg1) - 2)
 //@   callsite go: [C13,C15:refused-query-not-handled] gCC <= s.maxConcurrent && nAsk == 1 && gAdm == nil
 //@   loop 1:
 //@     modifies *
-//@     invariant s != nil && routerReady(s.r) && s.logger != nil && c != nil && br != nil && nAns == nQ
+//@     invariant s != nil && routerReady(s.r) && s.logger != nil && c != nil && br != nil && nAns == nQ && nQConv >= 0
 
 // the per-connection goroutine: handles exactly the connection that was admitted
 //@ closure tcpServer.run$1
@@ -1158,6 +1172,10 @@ package router
 //@   callsite Write?: [C03,C13:one-framed-write] arg0 == stream && arg1 == gB && len(arg1) >= 14 && len(arg1) - 2 <= 65535 && BE16(arg1, 0) == uint16(len(arg1) - 2)
 //@   callsite ReleaseMsg?: [C20:released-after-the-answer] nW == 1
 //@   callsite mustHaveRespB?: [C03:fallback-answer] arg2 == dnsmsg.RCodeRefused && arg3 == true
+// only the READ of the query is bounded (1 s); no deadline is put on writing the answer, which may take as long as
+// the router's own request deadline allows
+//@   callsite SetDeadline?: [C03:response-not-cut-before-the-request-deadline] false
+//@   callsite SetWriteDeadline?: [C03:response-not-cut-before-the-request-deadline] false
 
 //@ closure quicServer.handleConn$1
 //@   props C15 C03
